@@ -1,7 +1,7 @@
 (* Property C14 - only statements, each closed by [exact]. *)
 From Coq Require Import NArith ZArith List Bool.
 Import ListNotations.
-Require Import UV.C14.Model UV.C14.Proofs UV.C14.Patch UV.C14.Pages UV.C14.Layout UV.C14.SizeOpt UV.C14.Detect UV.C14.PreEntry UV.C14.Modules UV.C14.Exec.
+Require Import UV.C14.Model UV.C14.Proofs UV.C14.Patch UV.C14.Pages UV.C14.Layout UV.C14.SizeOpt UV.C14.Detect UV.C14.PreEntry UV.C14.Modules UV.C14.Exec UV.C14.Reloc.
 Local Open Scope N_scope.
 
 (* ---- which functions are selected ---- *)
@@ -44,6 +44,21 @@ Theorem C14_unvisited_module_unselected : forall O k funcs def t lib so,
   forall name, match_pattern_list O (parse_pattern_list O funcs def t) lib so name = 0%Z.
 Proof. exact unvisited_module_unselected. Qed.
 Print Assumptions C14_unvisited_module_unselected.
+
+(* whether libraries are looked at depends on the SET of options, not on their order ... *)
+Theorem C14_visited_order_independent : forall l l',
+  Permutation.Permutation l l' -> needs_modules (render_opts l) = needs_modules (render_opts l').
+Proof. exact visited_order_independent. Qed.
+Print Assumptions C14_visited_order_independent.
+
+(* ... and a library the list selects a function of is looked at, for every list *)
+Theorem C14_selected_module_is_visited : forall O k funcs def t lib so name,
+  match_pattern_list O (parse_pattern_list O funcs def t) lib so name <> 0%Z ->
+  bytes_eqb def (basename lib) = false ->
+  (forall s, so = Some s -> bytes_eqb def s = false) ->
+  module_visited k funcs (parse_pattern_list O funcs def t) lib so = true.
+Proof. exact selected_module_is_visited. Qed.
+Print Assumptions C14_selected_module_is_visited.
 
 (* the code as found (default module compared as a prefix): `-P plug` with executable "prog" selects
    plug() of "prog_plugin.so", which is not looked at unless an unrelated option carries an '@' *)
@@ -262,6 +277,35 @@ Theorem C14_detect_endbr_refuted :
   /\ snd (mcount_patch_func (find_module_type true SectNone DNone cet_mem [cet_sym]) 4080 0 cet_mem cet_sym) = Success.
 Proof. exact detect_endbr_refuted. Qed.
 Print Assumptions C14_detect_endbr_refuted.
+
+(* ---- reading __patchable_function_entries: file addresses, load bias, first-segment p_vaddr ---- *)
+(* repaired read_patchable_loc: for EVERY p_vaddr of the first PT_LOAD segment and every load bias
+   (ET_EXEC: bias 0), if the loader put the relocated section at sh_addr + bias the result is the list of
+   locations relative to the module's start - the coordinates of the symbol table *)
+Theorem C14_read_patchable_loc_correct : forall ei locs rt,
+  length locs = ei_n ei ->
+  (ei_dyn ei = false -> ei_bias ei = 0%Z) ->
+  loaded_section ei locs rt ->
+  read_patchable_loc true ei rt = map (fun l => (l - ei_first_vaddr ei)%Z) locs.
+Proof. exact read_patchable_loc_correct. Qed.
+Print Assumptions C14_read_patchable_loc_correct.
+
+(* the code as found coincides with it exactly where it cannot tell base address from load bias ... *)
+Theorem C14_read_patchable_loc_legacy_same : forall ei rt,
+  ei_dyn ei = false \/ ei_first_vaddr ei = 0%Z ->
+  read_patchable_loc false ei rt = read_patchable_loc true ei rt.
+Proof. exact read_patchable_loc_legacy_same. Qed.
+Print Assumptions C14_read_patchable_loc_legacy_same.
+
+(* ... and reads first_vaddr bytes behind the section for a PIE linked at a non-zero image base (lld
+   --image-base=0x200000): garbage or SIGSEGV in the traced program *)
+Theorem C14_read_patchable_loc_legacy_refuted :
+  loaded_section lld_ei lld_locs lld_rt
+  /\ read_patchable_loc true lld_ei lld_rt = [5872; 5888]%Z
+  /\ read_patchable_loc false lld_ei lld_rt <> [5872; 5888]%Z
+  /\ (section_read_addr false lld_ei - section_read_addr true lld_ei)%Z = ei_first_vaddr lld_ei.
+Proof. exact read_patchable_loc_legacy_refuted. Qed.
+Print Assumptions C14_read_patchable_loc_legacy_refuted.
 
 (* ---- -fpatchable-function-entry=N,M: locations recorded in front of the function ---- *)
 (* a location is patched as a symbol-less site only if no symbol begins 1..4 bytes behind it *)
